@@ -29,6 +29,9 @@ REQUIRED = [
     "load_state_through_bytes", "clock_keys_order", "clock_shelf_cursor_order", "leaf_keys_not_ordered", "metadata_getters_refine",
     "metadata_getters_fallback", "tree_inv_delete", "delete_undoes_insert", "xor_iblt_delete_lawful", "drop_leaves_spec",
     "drop_leaves_observables", "fact_tree_api", "new_iblt_buckets", "persist_full_eq_persist", "metric_tracks_stored_set",
+    # round 3: Add as two store transactions, all interleavings of concurrent callers (Props/C08Phases.lean)
+    "fact_add_phases", "add_is_read_then_write", "verifyPrevs_grow", "concurrent_adds_refine_spec",
+    "concurrent_schedule_refines_spec", "stale_verdict_still_valid", "lost_race_changes_nothing", "winner_stores_once",
 ]
 
 STATELESS = ("tcx", "tci", "tcm", "tca", "tnb", "ckey", "kclk", "phl", "mget")  # replayed alone
@@ -233,7 +236,7 @@ def run_level(ctx, level, pkg, files, name, marker, env_extra):
 
 def run(ctx):
     ctx.facts()
-    thms = ctx.build_and_audit(["NutsProofs.Props.C08"])
+    thms = ctx.build_and_audit(["NutsProofs.Props.C08", "NutsProofs.Props.C08Phases"])
     for r in REQUIRED:
         if not any(t.endswith("Props." + r) for t in thms):
             ctx.oblige("thm-present:" + r, False, "theorem missing or its module does not build")
